@@ -234,12 +234,22 @@ func (j *Join) JoinFunc(l, r *HashedTable) ([]any, error) {
 func (j *Join) ParallelJoinFunc(l, r *HashedTable) ([]any, error) {
 	var mut sync.Mutex
 	var wg sync.WaitGroup
+	var firstErr error
 	slice := make([]any, 0)
 
 	for lk, lv := range l.Keys {
 		wg.Add(1)
 		go func(lk string, lv *map[string]any) {
 			defer wg.Done()
+			defer func() {
+				if rec := recover(); rec != nil {
+					mut.Lock()
+					if firstErr == nil {
+						firstErr = fmt.Errorf("%v", rec)
+					}
+					mut.Unlock()
+				}
+			}()
 			switch ok, matches, err := j.JoinMatchFunc(lk, lv, l, r); {
 			case ok:
 				{
@@ -249,7 +259,11 @@ func (j *Join) ParallelJoinFunc(l, r *HashedTable) ([]any, error) {
 				}
 			case !ok && err != nil:
 				{
-					panic(err)
+					mut.Lock()
+					if firstErr == nil {
+						firstErr = err
+					}
+					mut.Unlock()
 				}
 			default:
 				{
@@ -259,6 +273,9 @@ func (j *Join) ParallelJoinFunc(l, r *HashedTable) ([]any, error) {
 		}(lk, lv)
 	}
 	wg.Wait()
+	if firstErr != nil {
+		return nil, firstErr
+	}
 	return slice, nil
 }
 
@@ -320,11 +337,21 @@ func (j *Join) JoinMatchFunc(lk string, lv *map[string]any, l, r *HashedTable) (
 func (j *Join) ParallelHashJoinFunc(l, r *HashedTable) ([]any, error) {
 	var mut sync.Mutex
 	var wg sync.WaitGroup
+	var firstErr error
 	slice := make([]any, 0)
 	for lk := range l.Rows {
 		wg.Add(1)
 		go func(lk string) {
 			defer wg.Done()
+			defer func() {
+				if rec := recover(); rec != nil {
+					mut.Lock()
+					if firstErr == nil {
+						firstErr = fmt.Errorf("%v", rec)
+					}
+					mut.Unlock()
+				}
+			}()
 			switch ok, matches, err := j.HashJoinMatchFunc(lk, l, r); {
 			case ok:
 				{
@@ -334,7 +361,11 @@ func (j *Join) ParallelHashJoinFunc(l, r *HashedTable) ([]any, error) {
 				}
 			case !ok && err != nil:
 				{
-					panic(err)
+					mut.Lock()
+					if firstErr == nil {
+						firstErr = err
+					}
+					mut.Unlock()
 				}
 			default:
 				{
@@ -344,6 +375,9 @@ func (j *Join) ParallelHashJoinFunc(l, r *HashedTable) ([]any, error) {
 		}(lk)
 	}
 	wg.Wait()
+	if firstErr != nil {
+		return nil, firstErr
+	}
 	return slice, nil
 }
 
